@@ -276,7 +276,62 @@ def _task_reconnect(args):
     return stats, vios[:40], sample
 
 
+def _task_swap(args):
+    """the receive callback is registered only after connect() and replaced between two bursts (each at a quiescent
+    point): every message goes, once and in order, to the callback registered when it arrived"""
+    kind, = args
+    items = alphabet(kind)
+    vios = []
+    stats = {"runs": 0, "streams": 0, "nontrivial": 0, "outcomes": set()}
+    sample = None
+    bursts = [[items["A"], items["A2"]], [items["A2"], items["A"], items["B1"]] + ([items["B2"]] if "B2" in items else []), [items["A"]]]
+    dec = NMEA2000Decoder()
+    exp = [[common.msg_view(m) for m in (clientkit.decode_one(dec, kind, p) for p in b) if m is not None] for b in bursts]
+    for initial in ("none", "other"):
+        for seg in ("whole", "bytes"):
+            got = {"0": [], "1": [], "2": [], "X": []}
+
+            def make_cb(tag):
+                async def cb(msg):
+                    got[tag].append(common.msg_view(msg))
+                return cb
+
+            def set_cb(tag):
+                def item(sess):
+                    sess.client.set_receive_callback(make_cb(tag) if tag is not None else None)
+                    return True
+                return item
+            script = [set_cb(None if initial == "none" else "X"), it_connect]
+            for i, b in enumerate(bursts):
+                script.append(set_cb(str(i)))
+                data = b"".join(b)
+                script += [vloop.it_feed(data, 0)] if seg == "whole" else [vloop.it_feed(data[j:j + 1], 0) for j in range(len(data))]
+            sess = vloop.Session(kind=kind, script=script)
+            o = sess.run()
+            stats["runs"] += 1
+            stats["nontrivial"] += 1
+            stats["outcomes"].add(tuple(len(got[k]) for k in "012X"))
+            bad = sorted(k for k in ("livelock", "watchdog", "busy_loop") if o.flags.get(k))
+            res = None
+            if bad or o.end_reason != "quiescent" or not o.flags.get("script_done"):
+                res = ("hang", {"end": o.end_reason}, f"execution ended with {o.end_reason} {o.flags}")
+            elif [got["0"], got["1"], got["2"]] != exp or got["X"]:
+                res = ("delivered_to_stale_callback", {"mechanism": "callback_replaced"},
+                       f"bursts of {[len(e) for e in exp]} messages, callbacks registered before each burst received {[len(got[k]) for k in '012']}, "
+                       f"the callback registered before connect() received {len(got['X'])}")
+            if res:
+                vios.append({"kind": res[0], "facts": dict(res[1], client=kind), "signature": f"swap:{res[0]}:{kind}",
+                             "detail": f"[{kind} callback before connect: {initial}; bursts fed {seg}] {res[2]}",
+                             "case": {"client": kind, "swap": True, "initial": initial, "seg": seg}})
+            elif sample is None:
+                sample = {"client": kind, "callback_swaps": 3, "delivered_per_callback": [len(got[k]) for k in "012"]}
+    stats["outcomes"] = len(stats["outcomes"])
+    return stats, vios, sample
+
+
 def _dispatch(t):
+    if t[0] == "swap":
+        return _task_swap(t[1:])
     if t[0] == "huge":
         return _task_huge(t[1:])
     if t[0] == "reconnect":
@@ -323,7 +378,7 @@ def plan(ctx):
 
 
 def run(ctx):
-    tasks = plan(ctx) + [("huge", "yd"), ("huge", "actisense")] + [("reconnect", k) for k in vloop.KINDS]
+    tasks = plan(ctx) + [("huge", "yd"), ("huge", "actisense")] + [("reconnect", k) for k in vloop.KINDS] + [("swap", k) for k in vloop.KINDS]
     results = common.pmap(_dispatch, tasks)
     vios, samples = [], []
     runs = streams = nontriv = outcomes = 0
@@ -354,6 +409,9 @@ def run(ctx):
 def replay(ctx, rep):
     c = rep["case"]
     kind = c["client"]
+    if c.get("swap"):
+        st, v, _ = _task_swap((kind,))
+        return [x for x in v if x["case"]["initial"] == c["initial"] and x["case"]["seg"] == c["seg"]][:1]
     if c.get("reconnect"):
         st, v, _ = _task_reconnect((kind,))
         return [x for x in v if all(x["case"][k] == c[k] for k in ("how", "j", "seg2"))][:1] or v[:1]
